@@ -57,6 +57,46 @@ func IntArrays(src string) (map[string][]int64, error) {
 	return out, nil
 }
 
+// IdentLists extracts every package-level `var name = []T{ident, ident, ...}` of a Go file
+// (the positional list of mode tables, for instance).
+func IdentLists(src string) (map[string][]string, error) {
+	fset := token.NewFileSet()
+	f, err := parser.ParseFile(fset, "gen.go", src, 0)
+	if err != nil {
+		return nil, err
+	}
+	out := map[string][]string{}
+	for _, d := range f.Decls {
+		gd, ok := d.(*ast.GenDecl)
+		if !ok || gd.Tok != token.VAR {
+			continue
+		}
+		for _, sp := range gd.Specs {
+			vs := sp.(*ast.ValueSpec)
+			if len(vs.Names) != 1 || len(vs.Values) != 1 {
+				continue
+			}
+			cl, ok := vs.Values[0].(*ast.CompositeLit)
+			if !ok || len(cl.Elts) == 0 {
+				continue
+			}
+			var xs []string
+			for _, e := range cl.Elts {
+				id, ok := e.(*ast.Ident)
+				if !ok {
+					xs = nil
+					break
+				}
+				xs = append(xs, id.Name)
+			}
+			if xs != nil {
+				out[vs.Names[0].Name] = xs
+			}
+		}
+	}
+	return out, nil
+}
+
 func intLit(e ast.Expr) (int64, bool) {
 	switch e := e.(type) {
 	case *ast.BasicLit:
